@@ -70,7 +70,8 @@ type gen struct {
 	// decoScope[d] = captures visible at d's `next`
 	decoScope     map[*DecoDef][]capref
 	decoTime      map[*DecoDef]bool
-	decoOtherwise map[*DecoDef]bool // the definition has an `otherwise` at its top level
+	decoOtherwise map[*DecoDef]bool     // the definition has an `otherwise` at its top level
+	decoForce     map[*DecoDef]*PatNode // the decorated block must read group 1 of this pattern
 	layout        string
 }
 
@@ -88,7 +89,7 @@ func Generate(r *vlib.Rand, cfg Config) *Program {
 		cfg.MaxExpr = 3
 	}
 	g := &gen{r: r, cfg: cfg, p: &Program{Features: map[string]int{}, pools: newPools()},
-		decoScope: map[*DecoDef][]capref{}, decoTime: map[*DecoDef]bool{}, decoOtherwise: map[*DecoDef]bool{}, layout: "2006-01-02T15:04:05"}
+		decoScope: map[*DecoDef][]capref{}, decoTime: map[*DecoDef]bool{}, decoOtherwise: map[*DecoDef]bool{}, decoForce: map[*DecoDef]*PatNode{}, layout: "2006-01-02T15:04:05"}
 	if cfg.Flag != "" {
 		g.p.Flags = []string{cfg.Flag}
 		g.flagged()
@@ -936,6 +937,44 @@ func (g *gen) assignTo(c *ctx, m *Metric) *Stmt {
 	return s
 }
 
+// capAction writes the captured value into the store (as a label if a
+// dimensioned metric exists, else through an assignment of matching type, else
+// through its length), so that reading the wrong group is visible.
+func (g *gen) capAction(c *ctx, cp *Expr) *Stmt {
+	for _, m := range g.p.Metrics {
+		if len(m.Keys) == 1 && m.Ty == TInt {
+			k := cp
+			if cp.Ty != TStr {
+				k = &Expr{Op: "conv", From: cp.Ty, Ty: TStr, A: cp}
+			}
+			m.pinned = true
+			g.feat("stmt/inc")
+			return &Stmt{Op: "inc", M: m, Keys: []*Expr{k}, Ty: TInt}
+		}
+	}
+	for _, m := range g.p.Metrics {
+		if len(m.Keys) == 0 && m.Ty == cp.Ty && m.Kind != "counter" {
+			m.pinned = true
+			g.feat("stmt/set")
+			return &Stmt{Op: "set", M: m, Ty: m.Ty, E: cp}
+		}
+	}
+	for _, m := range g.p.Metrics {
+		if len(m.Keys) == 0 && m.Ty == TInt {
+			e := cp
+			if cp.Ty == TStr {
+				e = &Expr{Op: "len", Ty: TInt, A: cp}
+			} else if cp.Ty == TFloat {
+				e = &Expr{Op: "len", Ty: TInt, A: &Expr{Op: "conv", Fn: "string", From: TFloat, Ty: TStr, A: cp}}
+			}
+			m.pinned = true
+			g.feat("stmt/add")
+			return &Stmt{Op: "add", M: m, Ty: TInt, E: e}
+		}
+	}
+	return g.action(c)
+}
+
 func (g *gen) action(c *ctx) *Stmt {
 	return g.assignTo(c, vlib.Pick(g.r, g.p.Metrics))
 }
@@ -1015,6 +1054,28 @@ func (g *gen) orConstPair(c *ctx) []*Stmt {
 	then := append([]*Stmt{rd}, g.block(inner, 1+r.Intn(2))...)
 	g.feat("cond/counter-or-const-pattern")
 	return []*Stmt{inc, {Op: "cond", E: &Expr{Op: "or", Ty: TBool, A: lhs, B: &Expr{Op: "match", Ty: TBool, Pat: pn}}, Then: then}}
+}
+
+// onePat is a pattern with exactly one group; name "" = numbered only.
+func (g *gen) onePat(name string) *PatNode {
+	r := g.r
+	g.npat++
+	p := &Pattern{Word: fmt.Sprintf("w%03d", g.npat)}
+	gk := vlib.Pick(r, groupKinds)
+	if g.cfg.NoFloat && gk.ty == TFloat {
+		gk = groupKinds[0]
+	}
+	gr := Group{Ty: gk.ty, Re: gk.re, Name: name}
+	if name != "" {
+		p.Text = p.Word + " (?P<" + name + ">" + gr.Re + ")"
+	} else {
+		p.Text = p.Word + " (" + gr.Re + ")"
+	}
+	p.Groups = []Group{gr}
+	p.Parts = []PatPart{{Lit: p.Text}}
+	g.p.patterns = append(g.p.patterns, p)
+	g.feat("pattern/groups1")
+	return &PatNode{P: p}
 }
 
 // constPat is a pattern written as one const name, with at least one group.
@@ -1156,8 +1217,49 @@ func (g *gen) cond(c *ctx, allowElse bool) *Stmt {
 	return s
 }
 
+// decoNested: a decorator with two nested patterns that both define group 1,
+// `next` inside the inner one.  The decorated block reads $1 (or the inner
+// group's name, which may be the name of a metric): the reference binds it to
+// the INNERMOST pattern on the way to `next`.
+func (g *gen) decoNested(i int) {
+	r := g.r
+	d := &DecoDef{Name: fmt.Sprintf("deco%d", i)}
+	c := &ctx{depth: 1, inDeco: d, touched: map[string]bool{}}
+	outer := g.onePat("")
+	name := ""
+	if r.Chance(40) {
+		// a named group that has the name of a metric
+		name = vlib.Pick(r, g.p.Metrics).Name
+		g.feat("deco/group-named-like-metric")
+	}
+	innerP := g.onePat(name)
+	c1 := g.enter(c, outer)
+	var outerStmts []*Stmt
+	if r.Chance(40) {
+		outerStmts = append(outerStmts, g.action(c1))
+	}
+	c2 := g.enter(c1, innerP)
+	var then []*Stmt
+	if r.Chance(30) {
+		then = append(then, g.action(c2))
+	}
+	g.decoScope[d] = c2.scope
+	g.decoTime[d] = false
+	g.decoForce[d] = innerP
+	then = append(then, &Stmt{Op: "next"})
+	innerCond := &Stmt{Op: "cond", E: &Expr{Op: "match", Ty: TBool, Pat: innerP}, Then: then}
+	d.Body = []*Stmt{{Op: "cond", E: &Expr{Op: "match", Ty: TBool, Pat: outer}, Then: append(outerStmts, innerCond)}}
+	g.p.Decos = append(g.p.Decos, d)
+	g.feat("deco/def")
+	g.feat("deco/nested-same-group")
+}
+
 func (g *gen) decoDef(i int) {
 	r := g.r
+	if r.Chance(40) {
+		g.decoNested(i)
+		return
+	}
 	d := &DecoDef{Name: fmt.Sprintf("deco%d", i)}
 	c := &ctx{depth: 1, inDeco: d, touched: map[string]bool{}}
 	var pn *PatNode
@@ -1215,7 +1317,15 @@ func (g *gen) decoUse(c *ctx, d *DecoDef) *Stmt {
 	inner.elseTop = true
 	g.feat("deco/use")
 	n := 1 + g.r.Intn(g.cfg.MaxStmts)
-	return &Stmt{Op: "deco", Deco: d, Then: g.block(inner, n)}
+	var pre []*Stmt
+	if fp := g.decoForce[d]; fp != nil {
+		// the decorated block reads the group both nested patterns define
+		gr := fp.P.Groups[0]
+		mk := func() *Expr { return &Expr{Op: "cap", Ty: gr.Ty, Pat: fp, Grp: 1, CapName: gr.Name} }
+		pre = []*Stmt{{Op: "cond", E: &Expr{Op: "cmp", Ty: TBool, Sym: "==", CT: gr.Ty, A: mk(), B: mk()},
+			Then: []*Stmt{g.capAction(g.sub(inner), mk())}}}
+	}
+	return &Stmt{Op: "deco", Deco: d, Then: append(pre, g.block(inner, n)...)}
 }
 
 // block generates n statements.  The main stream keeps `otherwise` inside the
